@@ -301,6 +301,23 @@ def run(tier):
                                "never left - `{ let x = 'inner'; yield } ... x` reads 'inner'; pending_completion: `try { return 1 } finally { yield }` "
                                "completes with undefined)" % (g.path, "does not move the yielded state's" if not captured else "rebuilds the VM with an empty", fld))
 
+    # R7 an exception injected on resume is a throw at the suspension point: whoever searches a frame for a handler also walks the callers
+    ck.rule("R7.injected-throw-parity", "every function that searches the current frame for an exception handler (find_exception_handler) also unwinds the trampoline "
+            "stack, or is only the first step of one that does", floor=1)
+    fh = [p for p in fx.fns if p.endswith("BytecodeVM::find_exception_handler")]
+    if ck.anchor(len(fh) == 1, "BytecodeVM::find_exception_handler"):
+        for p, g in sorted(fx.fns.items()):
+            if g.derived or g.closure or p == fh[0]:
+                continue
+            if not any(t[1].get("d") == fh[0] for _, t in g.calls()):
+                continue
+            walks = any(any(x[2] == "trampoline_stack" for x in F.place_fields(pl)) for _, kind, pl, _sp in M.all_places(g))
+            ck.instance("R7.injected-throw-parity", p, F.short_span(g.span), ok=walks)
+            if not walks:
+                ck.finding("R7.injected-throw-parity", "R7.injected-throw-parity/%s" % p, F.short_span(g.span),
+                           "`%s` looks for an exception handler in the current frame only: an exception that arrives on resume (a rejected awaited promise, an order "
+                           "answered with an error) is not caught by a try block of the *caller* of the function that was waiting - "
+                           "`async function f() { return await order(..) }  try { await f() } catch (e) {}` never runs the catch" % p)
     # R6 slot index domain (zero-expected, fixture controls)
     import slotindex
     nsl = slotindex.rule(fx, ck)
